@@ -127,6 +127,11 @@ var (
 		`{"Server":{"TLS":null},"Ptr":null,"PP":null,"PSlice":null}`, `{"Arr":[1,2,3,4]}`, `{"Arr":[1]}`, `{"Arr":{}}`, `{"Backends":[null]}`, `{"Backends":{"a":1}}`, `{"ByName":{"x":null}}`, `{"Matrix":[null,[null]]}`, `{"Server":{"Port":65536}}`, `{"hidden":1,"Skipped":"s","Ch":1,"Fn":1}`,
 		`{"Level":3,"Count":-4,"Ratio":0.5,"Flag":true,"Name":"n","Timeout":5,"Names":["a"],"Nums":[1],"Limits":{"a":1},"Labels":{"a":"b"},"Color":"#fff","Stamp":"1.2-x","PStamp":"3.4-y","ByLevel":{"a":1},"Counts":[1,2],"EaNum":1,"EaText":"t","EbList":["l"],"EbPtr":4,"EbFlag":true,"json_name":"j","tagged_name":"d"}`,
 		`{"Level":256}`, `{"Color":"fff"}`, `{"Stamp":"x"}`, `{"Stamp":{"Major":1}}`, `{"PStamp":null}`, `{"EmbA":{"EaNum":1}}`, `{"EmbB":{"EbFlag":true}}`, `{"Color":1}`, `{"Timeout":"1s"}`,
+		`{"Timeouts": ["3s", null, 1000]}`, `{"ByTimeout": {"a": "1s", "b": null, "c": 5}}`, `{"Pair": [null, "2s"]}`, `{"Pair": ["1s", null]}`, `{"PtrWaits": ["1s", 2]}`, `{"PtrWaits": null, "PtrPtr": null, "Timeouts": null, "ByTimeout": null}`, `{"PtrPtr": "5s"}`,
+		`{"Deep": {"a": [null, "1s", 3], "b": null}}`, `{"Ints": [1, null, 3]}`, `{"Strs": {"a": null, "b": "x"}}`, `{"Levels": [null, 3]}`, `{"NamedWaits": {"a": null, "b": 7}}`, `{"Stamps": [null, "1.2-x"]}`, `{"Colors": {"a": null, "b": "#fff"}}`,
+		`{"Recs": [{"Wait": null, "Waits": [null, "1s", 2], "Note": "n"}, {}]}`, `{"RecByName": {"a": null, "b": {"Wait": "1s", "Waits": [null]}}}`, `{"PlainWait": "1s", "PtrWait": null, "Waits": ["1s", 2]}`, `{"Waits": ["1s", null]}`, `{"PlainWait": null}`,
+		`{"Timeouts": [null]}`, `{"Timeouts": [null, null]}`, `{"Timeouts": [[null]]}`, `{"Timeouts": [{}]}`, `{"ByTimeout": {"": null}}`, `{"Timeouts": ["x", null]}`, `{"Timeouts": [1.5, null]}`,
+		`{"Backends": [null, {"Wait": null}], "ByName": {"x": null}, "Matrix": [null, [null]], "Server": {"TLS": {"Wait": null}}}`, `{"Tags": [null, "a"], "Limits": {"a": null}, "Waits": [null], "DurMap": {"a": null}}`,
 		``, ` `, `null`, `[]`, `1`, `"s"`, `{`, `}`, `{"a"`, `{"a":}`, `{"a":1,}`, `{"a":1}{"b":2}`, `{"a":1} x`, `{"\ud800":1}`, `{"a":"\ud800"}`, `{"a":1e999}`, `{"Port":1e2}`, "\ufeff{}", "{\"Name\":\"\x00\"}", "{\"Name\":\"\xff\"}",
 	}
 
@@ -160,6 +165,10 @@ var (
 		"arr: [1, 2, 3, 4]\n", "arr: [1]\n", "arr: {}\n", "backends: [~]\n", "backends: {a: 1}\n", "byname: {x: ~}\n", "matrix: [~, [~]]\n", "server: {port: 65536}\n", "server: {tls: ~}\nptr: ~\n", "ch: 1\nfn: 2\nhidden: 3\nskipped: s\n",
 		"level: 3\ncount: -4\nratio: .5\nflag: true\nname: n\ntimeout: 5\nnames: [a]\nnums: [1]\nlimits: {a: 1}\nlabels: {a: b}\ncolor: '#fff'\nstamp: 1.2-x\npstamp: 3.4-y\nbylevel: {a: 1}\ncounts: [1, 2]\nemba: {eanum: 1, eatext: t}\nembb: {eblist: [l], ebptr: 4, ebflag: true}\nyaml_name: y\n",
 		"eanum: 1\neatext: t\neblist: [l]\nebptr: 4\nebflag: true\n", "level: 256\n", "color: fff\n", "stamp: x\n", "stamp: {major: 1}\n", "pstamp: ~\n", "emba: ~\nembb: ~\n", "emba: 1\n", "color: [1]\n",
+		"timeouts: [3s, null, 1000]\n", "timeouts:\n- 3s\n- ~\n- 1000\n", "bytimeout: {a: 1s, b: ~, c: 5}\n", "bytimeout:\n  a: 1s\n  b:\n  c: null\n", "pair: [~, 2s]\n", "ptrwaits: [1s, 2]\n", "ptrwaits: ~\nptrptr: ~\ntimeouts: ~\n", "ptrptr: 5s\n",
+		"deep: {a: [~, 1s, 3], b: ~}\n", "ints: [1, ~, 3]\n", "strs: {a: ~, b: x}\n", "levels: [~, 3]\n", "namedwaits: {a: ~, b: 7}\n", "stamps: [~, 1.2-x]\n", "colors: {a: ~, b: '#fff'}\n",
+		"recs:\n- wait: ~\n  waits: [~, 1s, 2]\n  note: n\n- {}\n- ~\n", "recbyname: {a: ~, b: {wait: 1s, waits: [~]}}\n", "plainwait: 1s\nptrwait: ~\nwaits: [1s, 2]\n", "waits: [1s, ~]\n", "plainwait: ~\n", "timeouts: [~]\n", "timeouts: [[~]]\n", "timeouts: [Null, NULL, null, ~, ]\n",
+		"backends: [~, {wait: ~}]\nbyname: {x: ~}\nmatrix: [~, [~]]\n", "tags: [~, a]\nlimits: {a: ~}\nwaits: [~]\ndurmap: {a: ~}\n",
 		"", " ", "~", "[]", "1", "s", "{", "}", "---", "--- {}\n--- {}\n", "...", "%YAML 1.1\n--- {}\n", "%TAG ! tag:x,2000:\n--- !x {}\n", "a: b: c\n", "- a\n- b\n", "\ufeffname: x\n", "name: \x00\n", "name: \xff\n", "name: \"\\ud800\"\n", "a: &a [*a]\n",
 		"a: &a [x,x,x,x,x,x,x,x,x]\nb: &b [*a,*a,*a,*a,*a,*a,*a,*a,*a]\nc: &c [*b,*b,*b,*b,*b,*b,*b,*b,*b]\nd: &d [*c,*c,*c,*c,*c,*c,*c,*c,*c]\ne: &e [*d,*d,*d,*d,*d,*d,*d,*d,*d]\nf: &f [*e,*e,*e,*e,*e,*e,*e,*e,*e]\ntags: *f\n",
 	}
@@ -184,6 +193,7 @@ var (
 		"Ptr = 3\nPP = \"s\"\nPSlice = [\"a\"]\nArr = [1, 2, 3]\nMatrix = [[1.0], [2.0, 3.0]]\n[Server]\nHost = \"h\"\nPort = 65535\n[Server.TLS]\nCert = \"c\"\nVerify = true\nWait = \"1s\"\n[[Backends]]\nName = \"a\"\nWeight = 1\nWait = \"2s\"\n[[Backends]]\n[ByName.x]\nA = 1\nB = [\"y\"]\n[Deep.L1.L2.L3]\nLeaf = \"z\"\n",
 		"Arr = [1, 2, 3, 4]\n", "Arr = [1]\n", "Arr = \"x\"\n", "Backends = [1]\n", "[Backends]\na = 1\n", "Matrix = [[1], [\"a\"]]\n", "Matrix = [1]\n", "[Server]\nPort = 65536\n", "Ch = 1\nFn = 2\nhidden = 3\nSkipped = \"s\"\n",
 		"Level = 3\nCount = -4\nRatio = 0.5\nFlag = true\nName = \"n\"\nTimeout = 5\nNames = [\"a\"]\nNums = [1]\nColor = \"#fff\"\nStamp = \"1.2-x\"\nPStamp = \"3.4-y\"\nCounts = [1, 2]\nEaNum = 1\nEaText = \"t\"\nEbList = [\"l\"]\nEbPtr = 4\nEbFlag = true\ntoml_name = \"t\"\n[Limits]\na = 1\n[Labels]\na = \"b\"\n[ByLevel]\na = 1\n",
+		"Timeouts = [\"3s\", \"1m\"]\nPair = [\"1s\", \"2s\"]\nPtrWaits = [\"1s\"]\nPtrPtr = \"5s\"\nInts = [1, 2]\nLevels = [1, 2]\nStamps = [\"1.2-x\"]\nPlainWait = \"1s\"\nPtrWait = \"2s\"\nWaits = [\"1s\"]\n[ByTimeout]\na = \"1s\"\n[Strs]\na = \"x\"\n[Deep]\na = [\"1s\"]\n[[Recs]]\nWait = \"1s\"\nWaits = [\"2s\"]\n[RecByName.a]\nWait = \"1s\"\n", "Timeouts = [1, 2]\n", "Timeouts = []\n", "Pair = [\"1s\"]\n", "[ByTimeout]\n", "[[Recs]]\n[[Recs]]\n",
 		"Level = 256\n", "Color = \"fff\"\n", "Stamp = \"x\"\n", "[Stamp]\nMajor = 1\n", "[EmbA]\nEaNum = 1\n", "[EmbB]\nEbFlag = true\n", "Color = 1\n",
 		"", " ", "=", "a", "a =", "= 1", "[", "[]", "[a", "[a]]", "[[a]", "[a.]", "[.a]", "a.b = 1\na = 2\n", "[a]\n[a]\n", "[[a]]\n[a]\n", "a = [1, \"x\"]\n", "a = {b = 1,}\n", "a = {b = {c = {d = {e = 1}}}}\n", "a = \"\\ud800\"\n", "a = \"\\x\"\n", "a = '''", "a = 1979-05-27T07:32:00-99:00\n", "a = 0000-00-00\n", "a = +\n", "a = 1__0\n", "a = 0x\n", "\"\" = 1\n", "'' = 1\n", "\ufeffa = 1\n", "a = \"\x00\"\n", "a = \"\xff\"\n", "a = 1 # c\x00\n", "a\x00 = 1\n",
 	}
@@ -204,7 +214,7 @@ var (
 		}
 	`,
 		"database_name: \"x\"\ndatabase_user: other_stuff: some_timeout: \"1s\"\n", "database_user: other_stuff: some_timeout: 13\n", "import \"time\"\ndatabase_user: other_stuff: some_timeout: time.Second * 3\n",
-		"Port: 1 + 2\n", "Port: int\n", "Port: int | *3\n", "Port: >1\n", "Port: 1 & 2\n", "Port: _|_\n", "Name: \"a\" + \"b\"\n", "Name: \"\\(Port)\"\nPort: 1\n", "Tags: [\"a\", \"b\"]\n", "Tags: [...string]\n", "Tags: [for x in [1,2] {\"\\(x)\"}]\n", "Limits: {for k, v in {a: 1} {\"\\(k)\": v}}\n", "#D: {a: 1}\nLimits: #D\n", "x: y\ny: x\nPort: x\n", "x: x + 1\n", "a: b: c: d: 1\n", "if true {Port: 1}\n", "let x = 1\nPort: x\n", "Port: 1\nPort: 2\n", "Port: 1\nPort: 1\n", "package foo\nPort: 1\n", "import \"strings\"\nName: strings.ToUpper(\"a\")\n", "import \"nosuch\"\n", "import \"list\"\nPorts: list.Range(0, 5, 1)\n", "Ratio: 1.5\nHalf: 1e-1\n", "Ratio: 1e999\n", "Port: 0x10\nMid: 0o7\nWide: 0b1\nHuge: 1_000\n", "UHuge: 18446744073709551616\n", "Blob: 'bytes'\n", "Name: #\"raw\"#\n", "Name: \"\"\"\n  multi\n  \"\"\"\n", "Enabled: true\nTimeout: \"1m\"\nWhen: \"2020-01-02T03:04:05Z\"\nIP: \"10.0.0.1\"\n", "Set: a: {}\nLists: a: [\"b\"]\nDurMap: a: \"1s\"\n", "Name: null\nTags: null\n", "Name?: string\n", "Name!: string\n", "[string]: int\n", "{[=~\"^a\"]: 1}\n",
+		"Port: 1 + 2\n", "Port: int\n", "Port: int | *3\n", "Port: >1\n", "Port: 1 & 2\n", "Port: _|_\n", "Name: \"a\" + \"b\"\n", "Name: \"\\(Port)\"\nPort: 1\n", "Tags: [\"a\", \"b\"]\n", "Tags: [...string]\n", "Tags: [for x in [1,2] {\"\\(x)\"}]\n", "Limits: {for k, v in {a: 1} {\"\\(k)\": v}}\n", "#D: {a: 1}\nLimits: #D\n", "x: y\ny: x\nPort: x\n", "x: x + 1\n", "a: b: c: d: 1\n", "if true {Port: 1}\n", "let x = 1\nPort: x\n", "Port: 1\nPort: 2\n", "Port: 1\nPort: 1\n", "package foo\nPort: 1\n", "import \"strings\"\nName: strings.ToUpper(\"a\")\n", "import \"nosuch\"\n", "import \"list\"\nPorts: list.Range(0, 5, 1)\n", "Ratio: 1.5\nHalf: 1e-1\n", "Ratio: 1e999\n", "Port: 0x10\nMid: 0o7\nWide: 0b1\nHuge: 1_000\n", "UHuge: 18446744073709551616\n", "Blob: 'bytes'\n", "Name: #\"raw\"#\n", "Name: \"\"\"\n  multi\n  \"\"\"\n", "Enabled: true\nTimeout: \"1m\"\nWhen: \"2020-01-02T03:04:05Z\"\nIP: \"10.0.0.1\"\n", "Set: a: {}\nLists: a: [\"b\"]\nDurMap: a: \"1s\"\n", "Name: null\nTags: null\n", "Timeouts: [\"3s\", null, 1000]\n", "ByTimeout: {a: \"1s\", b: null, c: 5}\n", "Pair: [null, \"2s\"]\n", "Deep: a: [null, \"1s\", 3]\n", "Ints: [1, null, 3]\nStrs: {a: null, b: \"x\"}\n", "Levels: [null, 3]\nStamps: [null, \"1.2-x\"]\n", "Recs: [{Wait: null, Waits: [null, \"1s\", 2]}, {}]\n", "RecByName: {a: null, b: {Wait: \"1s\", Waits: [null]}}\n", "Timeouts: [null | \"1s\", *null | string]\n", "Timeouts: [...null]\n", "Timeouts: 3 * [null]\n", "PtrWaits: [\"1s\", 2]\nPtrPtr: \"5s\"\n", "Timeouts: [if true {null}]\n", "Name?: string\n", "Name!: string\n", "[string]: int\n", "{[=~\"^a\"]: 1}\n",
 	}
 
 	seedsEnvValues = []string{
@@ -248,10 +258,10 @@ func mkSeeds(nsel int, docs []string) []textSeed {
 var (
 	alphaCollections = []string{",", ":", "\"", "'", "`", "\\", " ", "\t", "\n", "a", "b", "k", "v", "1", "0", "-", "+", ".", "e", "i", "(", ")", "_", "x", "s", "h", "\x00", "\xff", "é", "日", "\\\"", "\\n", "\\u00e9", "\\x", "\"a\"", "\"a,b\"", "a:b", "1.5", "0x1f", "true", "1s", "//", "/*", "*/", "£", "$", "%", "/"}
 	alphaIdent       = []string{"a", "b", "A", "B", "ID", "API", "HTTP", "HTTPS", "UID", "UI", "JSON", "s", "S", "_", "-", "1", "2", "0", "é", "É", "ǅ", "日", "ß", "İ", " ", ".", "\xff", "\x00", "Port", "User", "utf8", "UTF8", "X"}
-	alphaJSON        = []string{"{", "}", "[", "]", ":", ",", "\"", "\\", " ", "\n", "null", "true", "false", "1", "-", ".", "e", "9", "\"a\"", "\"Name\"", "\"Port\"", "\"Tags\"", "\"Timeout\"", "\"Limits\"", "\"Server\"", "\"Backends\"", "\"database_user\"", "\"other_stuff\"", "\"some_timeout\"", "\"Level\"", "\"Stamp\"", "\"Color\"", "\"1s\"", "\"#fff\"", "\"1.2-x\"", "\\u", "d800", "\x00", "\xff"}
-	alphaYAML        = []string{":", " ", "\n", "-", "  ", "\t", "[", "]", "{", "}", ",", "\"", "'", "#", "&a", "*a", "!!", "!!str", "!!int", "!!binary", "|", ">", "?", "~", "<<", "---", "...", "%", "name", "port", "tags", "timeout", "limits", "server", "backends", "database_user", "other_stuff", "some_timeout", "level", "stamp", "color", "emba", "1", "1s", "x", "0x", "1e9", ".inf", "yes", "\x00", "\xff"}
+	alphaJSON        = []string{"{", "}", "[", "]", ":", ",", "\"", "\\", " ", "\n", "null", "true", "false", "1", "-", ".", "e", "9", "\"a\"", "\"Name\"", "\"Port\"", "\"Tags\"", "\"Timeout\"", "\"Limits\"", "\"Server\"", "\"Backends\"", "\"database_user\"", "\"other_stuff\"", "\"some_timeout\"", "\"Level\"", "\"Stamp\"", "\"Color\"", "\"Timeouts\"", "\"ByTimeout\"", "\"Pair\"", "\"Deep\"", "\"Recs\"", "\"Wait\"", "\"Waits\"", "[null,", ",null]", ":null", "[\"3s\",null,1000]", "\"1s\"", "\"#fff\"", "\"1.2-x\"", "\\u", "d800", "\x00", "\xff"}
+	alphaYAML        = []string{":", " ", "\n", "-", "  ", "\t", "[", "]", "{", "}", ",", "\"", "'", "#", "&a", "*a", "!!", "!!str", "!!int", "!!binary", "|", ">", "?", "~", "<<", "---", "...", "%", "name", "port", "tags", "timeout", "limits", "server", "backends", "database_user", "other_stuff", "some_timeout", "level", "stamp", "color", "emba", "timeouts", "bytimeout", "pair", "deep", "recs", "wait", "waits", "null", "[~, 1s]", "{a: ~}", "1", "1s", "x", "0x", "1e9", ".inf", "yes", "\x00", "\xff"}
 	alphaTOML        = []string{"=", " ", "\n", "[", "]", "[[", "]]", "{", "}", ",", ".", "\"", "'", "\"\"\"", "'''", "#", "\\", "Name", "Port", "Tags", "Timeout", "Limits", "Server", "Backends", "database_user", "other_stuff", "some_timeout", "Level", "Stamp", "Color", "1", "1.5", "true", "\"1s\"", "\"x\"", "2020-01-02", "T03:04:05", "Z", "+", "-", "_", "0x", "inf", "nan", "\x00", "\xff"}
-	alphaCue         = []string{":", " ", "\n", "{", "}", "[", "]", ",", "\"", "\\(", ")", "(", "|", "&", "*", "+", "-", "/", "<", ">", "=", "!", "?", "#", "_", "_|_", "...", "for", "in", "if", "let", "import", "package", "int", "string", "null", "true", "Name", "Port", "Tags", "Timeout", "Limits", "database_user", "other_stuff", "some_timeout", "1", "1.5", "\"1s\"", "\"x\"", "x", "'", "\"\"\"", "\x00", "\xff", "18446744073709551615", "9223372036854775807", "4611686018427387904", "-1"}
+	alphaCue         = []string{":", " ", "\n", "{", "}", "[", "]", ",", "\"", "\\(", ")", "(", "|", "&", "*", "+", "-", "/", "<", ">", "=", "!", "?", "#", "_", "_|_", "...", "for", "in", "if", "let", "import", "package", "int", "string", "null", "true", "Name", "Port", "Tags", "Timeout", "Limits", "database_user", "other_stuff", "some_timeout", "Timeouts", "ByTimeout", "Pair", "Deep", "Recs", "Wait", "Waits", "[null,", ", null]", ": null", "1", "1.5", "\"1s\"", "\"x\"", "x", "'", "\"\"\"", "\x00", "\xff", "18446744073709551615", "9223372036854775807", "4611686018427387904", "-1"}
 	alphaEnv         = alphaCollections
 	alphaFlag        = []string{"-", "--", "=", "\n", "str", "flag", "i", "i8", "u8", "f32", "c64", "c128", "dur", "when", "ip", "color", "strs", "ints", "i8s", "u16s", "ss", "lists", "set", "ptr-int", "nested-inner", "nested-deep-n", "ea-num", "short", "s", "h", "help", "a", "1", "-1", "256", "1e39", "true", "x", ",", ":", "\"", "10s", "#fff", "(1+2i)", " ", "\x00", "\xff"}
 )
